@@ -12,7 +12,7 @@ TROUBLE = [
     '%41', '%', '%%', 'pl+us', 'a+b+c', 'eq=ual', '[brack]', '[', ']', 'st*ar', 'qu?es', '*', '?',
     '-dash', '--', '-f', '-rf', '..x', '...', '.hidden', 'x.trashinfo', '.trashinfo',
     'a.trashinfo.trashinfo', '#hash', 'semi;colon', "quo'te", 'dq"uote', 'back\\slash', 'a:b',
-    '~tilde', '$var', '`bt`', '!bang', '{br}', '(p)', '&', '|', 'café', '日本語',
+    '~tilde', '~', '~root', '$var', '`bt`', '!bang', '{br}', '(p)', '&', '|', 'café', '日本語',
     '\U0001f600', 'é', 'Path=x', 'DeletionDate=1', '[Trash Info]', 'foo_1', 'foo_2',
     'a' * 255, 'b' * 200 + '.txt', 'é' * 127, 'x' * 241,
     'bad\udcff', '\udc80\udc81', 'ok\udce9nd',          # invalid UTF-8 (surrogate-escaped)
